@@ -202,6 +202,14 @@ func analyseLocks(fn *ssa.Function, entry LockSet) *FnLocks {
 					}
 					apply(st.must, op, true)
 					apply(st.may, op, false)
+				} else if callee := StaticFn(x); callee != nil {
+					// a helper that returns with a lock held on every path (a lock-acquiring wrapper:
+					// `b := rl.lockLiveBucket(ip); defer b.mutex.Unlock()`) acquires it for its caller
+					for _, h := range lockSummary[callee] {
+						op := lockOp{Acquire: true, Mode: h.Mode, Class: h.Class, Root: "?", Known: true}
+						apply(st.must, op, true)
+						apply(st.may, op, false)
+					}
 				}
 			case *ssa.Defer:
 				if op, ok := asLockOp(x); ok {
@@ -310,6 +318,21 @@ func analyseLocks(fn *ssa.Function, entry LockSet) *FnLocks {
 	return res
 }
 
+// lockSummary: for lock-acquiring wrappers, the locks their caller holds after the call returns.
+var lockSummary = map[*ssa.Function][]Held{}
+
+func sameHeld(a, b []Held) bool {
+	if len(a) != len(b) {
+		return false
+	}
+	for i := range a {
+		if a[i] != b[i] {
+			return false
+		}
+	}
+	return true
+}
+
 func sameLS(a, b LockSet) bool {
 	if len(a) != len(b) {
 		return false
@@ -339,11 +362,57 @@ func (p *Program) Locks() *LockInfo {
 	for _, fn := range p.Funcs {
 		entry[fn] = LockSet{}
 	}
-	for iter := 0; iter < 4; iter++ {
+	lockSummary = map[*ssa.Function][]Held{}
+	for iter := 0; iter < 5; iter++ {
 		for _, fn := range p.Funcs {
 			li.Fns[fn] = analyseLocks(fn, entry[fn])
 		}
 		changed := false
+		// lock-acquiring wrappers: locks held (must) at every normal return that were not held at entry
+		for _, fn := range p.Funcs {
+			fl := li.Fns[fn]
+			var acq []Held
+			first := true
+			nRet := 0
+			for _, ex := range fl.Exit {
+				if _, isRet := ex.At.(*ssa.Return); !isRet {
+					continue
+				}
+				nRet++
+				var here []Held
+				for _, h := range ex.Must {
+					if fl.Entry.HoldsClass(h.Class) == 0 {
+						here = append(here, Held{Class: h.Class, Root: "?", Mode: h.Mode})
+					}
+				}
+				if first {
+					acq, first = here, false
+					continue
+				}
+				var keep []Held
+				for _, a := range acq {
+					for _, b := range here {
+						if a.Class == b.Class && a.Mode == b.Mode {
+							keep = append(keep, a)
+							break
+						}
+					}
+				}
+				acq = keep
+			}
+			if nRet == 0 {
+				acq = nil
+			}
+			sort.Slice(acq, func(i, j int) bool { return acq[i].Class < acq[j].Class })
+			if !sameHeld(acq, lockSummary[fn]) {
+				if len(acq) == 0 {
+					delete(lockSummary, fn)
+				} else {
+					lockSummary[fn] = acq
+				}
+				changed = true
+			}
+		}
 		for _, fn := range p.Funcs {
 			n := p.CG.Nodes[fn]
 			if n == nil {
